@@ -179,6 +179,37 @@ CLAIMED['C18'] = dict(
               'differential correspondence on node graphs',
     ref='DESIGN.md 7 (C18)')
 
+CLAIMED['C16'] = dict(
+    text='Lean 4 theorems: one iff per UnknownNode helper between "returns normally" in the model and '
+         'the documented condition - require_mapping / require_sequence / require_scalar (with and '
+         'without types), require_attribute (present; with a type: the first value is recognisable by '
+         'the loader\'s own recogniser, literally the same function), require_attribute_value and '
+         '_value_not (characterised on the list of string-keyed occurrences, by induction over the '
+         'pairs: every occurrence equal / none equal, a value of another type counting as different). '
+         'Purity is structural in the model (recognition returns no node since the enum retagging fix). '
+         'Tie: every helper call on generated nodes x names x values x types runs on a real UnknownNode '
+         'and on the model, against an independent evaluation of the documented condition, with a '
+         'deep before/after comparison of the node.',
+    note=NOTE_COMMON + 'construct_yaml_float as external function.',
+    technique='Lean 4 proofs (iff characterisations, induction over mapping pairs) + differential '
+              'correspondence + documented-condition oracle + node immutability check',
+    ref='DESIGN.md 7 (C16)')
+CLAIMED['C17'] = dict(
+    text='Lean 4 theorems on structured errors (the model carries, per leaf of the error tree, the '
+         'positions and key names the message cites): every construction-phase and processing error '
+         'raised through errAt cites exactly one position; a mismatching scalar cites the node; a '
+         'missing required key is named with the mapping position; an unknown key is named with the '
+         'key position; a wrongly typed attribute cites the value position and names the attribute. '
+         'On the real code: hierarchy-free models, block-style documents, single corruptions - the '
+         'parsed message must cite the line of the corrupted node, its key or the enclosing mapping '
+         'and name the key; every RecognitionError must cite a position inside the document. '
+         + LOADER_TIE + 'Cited position sets of model and real message are compared on every failure.',
+    note=NOTE_COMMON + 'the rendering of marks into text is PyYAML (Mark.__str__); message wording is '
+         'not modelled.',
+    technique='Lean 4 proofs on structured errors + single-corruption exploration with message parsing '
+              '+ differential correspondence of cited positions',
+    ref='DESIGN.md 7 (C17)')
+
 NOT_YET = 'check not built yet in this round (planned proof: DESIGN.md section 7)'
 
 
